@@ -61,6 +61,23 @@ def repl_oracle(script, impl):
     return probs
 
 
+def repl_once_oracle(script, impl):
+    """C13 seen end to end: within one run of a replica's process the operations handed to its engine are a subsequence of the
+    primary's log per key - each at most once, in log order (the harness keeps both lists; `applylog=` on every await)."""
+    probs = []
+    for ws, out in _ops(script, impl):
+        if ws[0] != 'await':
+            continue
+        al = [t[9:] for t in (out or '').split() if t.startswith('applylog=')]
+        if al and al[0] != 'ok':
+            probs.append('not-exactly-once: a replica applied an operation twice or out of log order within one run of its process: %s' % al[0][:300])
+    return probs
+
+
+def repl_once_nontrivial(script, impl):
+    return repl_nontrivial(script, impl) and any('applylog=' in (i or '') for i in impl)
+
+
 def repl_nontrivial(script, impl):
     """a scenario counts if a replica really was compared after at least 5 primary operations"""
     ops = sum(1 for l in script if l.split()[0] in ('put', 'putbig', 'del', 'tx', 'burst', 'burstdel', 'bgburst'))
